@@ -259,6 +259,13 @@ def gen_relay(work, tier, seed):
             acts = [{"a": "cs", "decl": 50, "carr": 50}, {"a": "bs", "n": 200}, {"a": "burstclose", "sizes": sizes, "apart": k % 3 == 2}]
             scripts.append({"id": "y%05d" % len(scripts), "origin": "burstclose:%d" % nb, "cfg": base_cfg(token), "transport": tr,
                             "tun": dict(H_A, user="user1" if token else "nuser1"), "steps": session(token)[:4], "actions": acts})
+    # a crowded gateway: the tunnel's host streams to a client that reads in bursts while six other tunnels relay streams
+    # of their own to slow clients
+    for k, tr in enumerate(("ws", "legacy") * (1 if tier == "quick" else 4)):
+        token = k % 2 == 1
+        acts = [{"a": "bs", "n": 300}, {"a": "bcrowd", "n": (3 << 20) if tier == "quick" else (8 << 20), "k": 6}, {"a": "cs", "decl": 9, "carr": 9}, {"a": "bs", "n": 5000}]
+        scripts.insert(0, {"id": "y%05d" % len(scripts), "origin": "crowded:%d" % k, "cfg": base_cfg(token), "transport": tr,
+                           "tun": dict(H_A, user="user1" if token else "nuser1"), "steps": session(token)[:4], "actions": acts})
     # legacy: a second RDG_OUT_DATA request while the host is sending; the client reads on there
     for k in range(4 if tier == "quick" else 24):
         token = k % 2 == 0
